@@ -1,5 +1,6 @@
 import Glas.Props.C02
 import Glas.Props.C02Marks
+import Glas.Props.C02Stuck
 #print axioms Glas.Props.C02.glas_checked
 #print axioms Glas.Props.C02.check_sound_safe
 #print axioms Glas.Props.C02.check_sound_terminates
@@ -13,3 +14,7 @@ import Glas.Props.C02Marks
 #print axioms Glas.Props.C02Marks.C02_result_stable
 #print axioms Glas.Props.C02Marks.modelFuel_ge_bound
 #print axioms Glas.Props.C02Marks.driver_fuel_canonical
+#print axioms Glas.Props.C02La.glas_la_checked
+#print axioms Glas.Props.C02La.la_sound
+#print axioms Glas.Props.C02La.C02_never_stuck
+#print axioms Glas.Props.C02Stuck.C02_always_ok
